@@ -1,5 +1,4 @@
-"""xtuml/meta.py + xtuml/load.py -> lean/Gen/LoadDecisions.lean  (C03)
-
+"""xtuml/meta.py + xtuml/load.py -> lean/Gen/LoadDecisions.lean:
 Translates, with `ast` only (the repository is never imported), the DECISIONS of the batch loader:
 
   * the null rule `_is_null(instance, name)` (xtuml/meta.py): the chain
